@@ -554,12 +554,11 @@ def deliver : Nat → Call → Op → Res
 /-- number of next() completions a source can still deliver with a value (script entries not yet
     completed) -/
 def leafRem (k : LeafKind) (st : LeafSt) : Nat :=
-  (match k with
-   | .range lo hi => hi - (lo + st.k)
-   | .single _ => 1 - st.k
-   | .never => 0
-   | .src i => (specs i).nexts.length - st.k)
-  + (if st.ph = .nexting then 1 else 0)
+  match k with
+  | .range lo hi => hi - (lo + st.k)
+  | .single _ => 1 - st.k
+  | .never => 1
+  | .src i => (specs i).nexts.length - st.k + (if st.ph = .nexting then 1 else 0)
 
 /-- a sufficient amount of fuel for `deliver` (see `Props/C13`) -/
 def Op.need : Op → Nat
